@@ -482,3 +482,169 @@ Transparent join_str.
 
 Lemma Forall2_map_r {A B} (R : A -> B -> Prop) (f : A -> B) l : (forall a, R a (f a)) -> Forall2 R l (map f l).
 Proof. intro H. induction l; constructor; auto. Qed.
+
+(* ------------------------------------------------------------ the exact block is complete for what the table names *)
+
+(* no dependency list demands a product that is not set up *)
+Definition closed (w : world) (e : amap str) (rd : rawdeps) : Prop :=
+  forall n v, exists l, setup_closure true w e None (lookup_raw rd n v) = Ok l.
+
+Lemma setup_closure_complete sf w e : forall ds skip l d p,
+  setup_closure sf w e skip ds = Ok l -> In d ds -> find_setup_product w e (d_name d) = Some p ->
+  In (p_name p, p_version p, d_optional d) l.
+Proof.
+  induction ds as [|d0 ds IH]; intros skip l d p H I F; [contradiction|].
+  cbn [setup_closure] in H. cbv zeta in H. destruct I as [->|I].
+  - rewrite F in H.
+    match type of H with bind ?X _ = _ => destruct X as [r|] end; simpl in H; [|discriminate].
+    inversion H; subst. now left.
+  - destruct (find_setup_product w e (d_name d0)) as [p0|].
+    + match type of H with bind ?X _ = _ => destruct X as [r|] eqn:R end; simpl in H; [|discriminate].
+      inversion H; subst. right. eapply IH; eauto.
+    + destruct (d_optional d0); [eapply IH; eauto|].
+      match type of H with match ?X with _ => _ end = _ => destruct X end; [eapply IH; eauto|discriminate].
+Qed.
+
+Lemma key_eqb_eq a b : key_eqb a b = true <-> a = b.
+Proof.
+  destruct a as [a1 a2], b as [b1 b2]. unfold key_eqb. simpl. rewrite andb_true_iff, !str_eqb_eq.
+  split; [intros [-> ->]; reflexivity|intro H; inversion H; auto].
+Qed.
+
+Lemma mem_key_In k l : mem_key k l = true <-> In k l.
+Proof.
+  induction l as [|x l IH]; simpl; [split; [discriminate|contradiction]|].
+  destruct (key_eqb k x) eqn:E.
+  - apply key_eqb_eq in E. subst. split; auto.
+  - rewrite IH. split; [auto|]. intros [->|I]; [|assumption].
+    assert (key_eqb k k = true) by now apply key_eqb_eq. congruence.
+Qed.
+
+Lemma add_nvol_mono : forall l des opt k, In k des -> In k (fst (add_nvol l des opt)).
+Proof.
+  induction l as [|[[n v] o] l IH]; intros des opt k I; simpl; [assumption|].
+  destruct (mem_key (n, v) des); apply IH; [assumption|]. apply in_or_app. now left.
+Qed.
+
+Lemma add_nvol_in : forall l des opt n v o, In (n, v, o) l -> In (n, v) (fst (add_nvol l des opt)).
+Proof.
+  induction l as [|[[n0 v0] o0] l IH]; intros des opt n v o I; [contradiction|]. simpl.
+  destruct I as [E|I].
+  - inversion E; subst. destruct (mem_key (n, v) des) eqn:M.
+    + apply add_nvol_mono. now apply mem_key_In.
+    + apply add_nvol_mono. apply in_or_app. right. now left.
+  - destruct (mem_key (n0, v0) des); eapply IH; eauto.
+Qed.
+
+Lemma collect_mono jf sf w e top plist force rd : forall prods a a' k,
+  collect jf sf w e top plist force rd prods a = Ok a' -> In k (a_des a) -> In k (a_des a').
+Proof.
+  induction prods as [|r prods IH]; intros a a' k H I; cbn [collect] in H.
+  - now inversion H; subst.
+  - destruct (line_closure jf sf w e top plist force rd (rl_name r) (rl_optional r) (rl_just r)) as [[| |l]|x];
+      [| | |discriminate].
+    + eapply IH; eauto.
+    + eapply IH; eauto.
+    + pose proof (add_nvol_mono l (a_des a) (a_opt a) k I) as M.
+      destruct (add_nvol l (a_des a) (a_opt a)) as [des opt]. eapply IH; eauto.
+Qed.
+
+Lemma collect_complete jf sf w e top plist force rd : forall prods a a' r l n v o,
+  collect jf sf w e top plist force rd prods a = Ok a' -> In r prods ->
+  line_closure jf sf w e top plist force rd (rl_name r) (rl_optional r) (rl_just r) = Ok (LAdd l) ->
+  In (n, v, o) l -> In (n, v) (a_des a').
+Proof.
+  induction prods as [|r0 prods IH]; intros a a' r l n v o H I L Il; [contradiction|].
+  cbn [collect] in H. destruct I as [->|I].
+  - rewrite L in H. pose proof (add_nvol_in l (a_des a) (a_opt a) n v o Il) as M.
+    destruct (add_nvol l (a_des a) (a_opt a)) as [des opt]. eapply collect_mono; eauto.
+  - destruct (line_closure jf sf w e top plist force rd (rl_name r0) (rl_optional r0) (rl_just r0)) as [[| |l0]|x];
+      [| | |discriminate].
+    + eapply IH; eauto.
+    + eapply IH; eauto.
+    + destruct (add_nvol l0 (a_des a) (a_opt a)) as [des opt]. eapply IH; eauto.
+Qed.
+
+Lemma rewrite_keeps w e plist s :
+  rl_name (rewrite w e plist s) = sl_name s /\ rl_optional (rewrite w e plist s) = sl_optional s /\
+  rl_flags (rewrite w e plist s) = sl_flags s.
+Proof.
+  destruct (rewrite_carries w e plist s) as [->|[v [lg [-> _]]]]; simpl; auto.
+Qed.
+
+Lemma in_setup_rlines w e plist s : forall ls, In (LSetup s) ls ->
+  In (rewrite w e plist s) (setup_rlines (map (rewrite_line w e plist) ls)).
+Proof.
+  induction ls as [|l ls IH]; intro I; [contradiction|]. destruct I as [->|I].
+  - now left.
+  - destruct l; simpl; auto.
+Qed.
+
+Lemma in_map_rewrite_bsetup w e plist s : forall ls, In (LSetup s) ls ->
+  In (BSetup (rewrite w e plist s)) (map (rewrite_line w e plist) ls).
+Proof. intros ls I. apply in_map_iff. exists (LSetup s). split; [reflexivity|assumption]. Qed.
+
+Lemma blocks_true : forall ls cur, existsb fst (blocks true cur ls) = true.
+Proof.
+  induction ls as [|l ls IH]; intro cur; [reflexivity|]. destruct l; simpl; auto.
+Qed.
+
+Lemma blocks_has_setup r : forall ls f cur, In (BSetup r) ls -> existsb fst (blocks f cur ls) = true.
+Proof.
+  induction ls as [|l ls IH]; intros f cur I; [contradiction|]. destruct I as [->|I].
+  - destruct f; simpl; [apply blocks_true|]. apply blocks_true.
+  - destruct l; simpl; auto.
+    + destruct f; [auto|]. simpl. apply blocks_true.
+    + destruct f; simpl; auto.
+Qed.
+
+Lemma emit_has_pins pins x : forall bs, existsb fst bs = true -> In x pins -> In x (emit pins bs).
+Proof.
+  induction bs as [|[f b] bs IH]; intros X I; [discriminate|]. destruct f; cbn [emit].
+  - destruct (existsb fst bs) eqn:Y.
+    + right. apply in_or_app. right. right. now apply IH.
+    + right. apply in_or_app. now left.
+  - apply in_or_app. right. apply IH; assumption.
+Qed.
+
+Lemma block_complete w e top force rd ls out s n v :
+  expand w e top [] force rd ls = Ok out ->
+  closed w e rd ->
+  In (LSetup s) ls -> sl_name s <> top -> recorded e (sl_name s) v -> v <> [] ->
+  (n = sl_name s \/
+   (mem_str (lit "-j") (sl_flags s) = false /\ find_pv w (sl_name s) v <> None /\
+    exists d p, In d (lookup_raw rd (sl_name s) v) /\ d_name d = n /\ find_setup_product w e n = Some p)) ->
+  exists o v', In (OPin o n v') out /\ recorded e n v'.
+Proof.
+  intros E C I Nt R Vne Hn. unfold expand, expand_gen in E.
+  destruct (collect true true w e top [] force rd _ _) as [a|x] eqn:Col; [|discriminate].
+  inversion E; subst out. clear E.
+  set (r := rewrite w e [] s).
+  destruct (rewrite_keeps w e [] s) as [Kn [Ko Kf]]. fold r in Kn, Ko, Kf.
+  assert (Ir : In r (setup_rlines (map (rewrite_line w e []) ls))) by now apply in_setup_rlines.
+  (* what the loop does for this line *)
+  assert (L : exists l, line_closure true true w e top [] force rd (rl_name r) (rl_optional r) (rl_just r) = Ok (LAdd l) /\
+                        exists o v', In (n, v', o) l /\ recorded e n v').
+  { unfold line_closure. rewrite Kn. destruct (str_eqb (sl_name s) top) eqn:T; [apply str_eqb_eq in T; contradiction|].
+    cbn [alookup]. unfold recorded in R. rewrite R. destruct v as [|c0 r0]; [congruence|]. cbn [truthy andb].
+    unfold rl_just. rewrite Kf.
+    destruct (mem_str (lit "-j") (sl_flags s)) eqn:J.
+    - eexists. split; [reflexivity|]. destruct Hn as [->|[Hj _]]; [|discriminate].
+      exists (rl_optional r), (c0 :: r0). split; [now left|exact R].
+    - destruct (C (sl_name s) (c0 :: r0)) as [l Hl].
+      destruct (find_pv w (sl_name s) (c0 :: r0)) as [q|] eqn:Fq.
+      + rewrite Hl. eexists. split; [reflexivity|]. destruct Hn as [->|[_ [_ [d [p [Id [Dn Fp]]]]]]].
+        * exists (rl_optional r), (c0 :: r0). split; [now left|exact R].
+        * subst n. exists (d_optional d), (p_version p). split.
+          -- right. pose proof (setup_closure_complete true w e _ None l d p Hl Id Fp) as M.
+             apply find_setup_product_recorded in Fp. destruct Fp as [Pn _]. now rewrite Pn in M.
+          -- apply find_setup_product_recorded in Fp. apply Fp.
+      + eexists. split; [reflexivity|]. destruct Hn as [->|[_ [Hd _]]]; [|congruence].
+        exists (rl_optional r), (c0 :: r0). split; [now left|exact R]. }
+  destruct L as [l [Ll [o [v' [Il Rv]]]]].
+  pose proof (collect_complete true true w e top [] force rd _ _ a r l n v' o Col Ir Ll Il) as D.
+  exists (mem_key (n, v') (a_opt a) || mem_str n (a_nf a)), v'. split; [|exact Rv].
+  apply emit_has_pins.
+  - eapply blocks_has_setup. apply in_map_rewrite_bsetup. exact I.
+  - unfold pin_lines. apply in_map_iff. exists (n, v'). split; [reflexivity|exact D].
+Qed.
